@@ -123,6 +123,9 @@ def m_packb(it, obj, default=None, use_bin_type=True, unicode_errors="strict", *
     return b
 
 
+STRICT_KEYS = [True]  # unpackb(strict_map_key=...): the default (True) accepts only str / bytes as map keys (msgpack >= 1.0)
+
+
 def untree(it, t, ext_hook, use_list, errors="surrogateescape"):
     k = t[0]
     if k == "leaf":
@@ -141,7 +144,13 @@ def untree(it, t, ext_hook, use_list, errors="surrogateescape"):
         xs = [untree(it, x, ext_hook, use_list, errors) for x in t[1]]
         return xs if use_list else tuple(xs)
     if k == "map":
-        return {untree(it, a, ext_hook, use_list, errors): untree(it, b, ext_hook, use_list, errors) for a, b in t[1]}
+        out = {}
+        for a, b in t[1]:
+            key = untree(it, a, ext_hook, use_list, errors)
+            if STRICT_KEYS[-1] and not isinstance(it.unbase(key), (str, bytes, SStr, SBytes)):
+                raise PyRaise(ValueError(f"{it.type_name(key)} is not allowed for map key when strict_map_key=True"))
+            out[key] = untree(it, b, ext_hook, use_list, errors)
+        return out
     if k == "ext":
         if ext_hook is None:
             return ExtType(t[1], t[2])
@@ -155,6 +164,14 @@ def tree_of_bytes(t):
 
 
 def m_unpackb(it, data, ext_hook=None, use_list=True, raw=False, unicode_errors="strict", **kw):
+    STRICT_KEYS.append(bool(kw.get("strict_map_key", True)))
+    try:
+        return _m_unpackb(it, data, ext_hook, use_list, raw, unicode_errors, **kw)
+    finally:
+        STRICT_KEYS.pop()
+
+
+def _m_unpackb(it, data, ext_hook=None, use_list=True, raw=False, unicode_errors="strict", **kw):
     data = it.unbase(data)
     if isinstance(data, MPTrunc):
         note("msgpack-prefix-free", "no proper prefix of a msgpack encoding is itself a complete encoding: unpackb of a truncated value raises ValueError (incomplete input), never returns a value")
